@@ -14,7 +14,7 @@ RULE = ('column names (tables, conditions, callable arguments, find_<col>) are d
         '(names built from / starting with the letters of "find_") besides a, b, c. '
         'cases: (table of 0-6 rows x 1-3 columns over {None, 0, 1, 1.0, 2, 2.5, shared NaN objects, "a", "ab", "b", ""}, condition, column for find_) '
         'where the condition is: nothing; 1-3 column conditions spelled as keyword filters, one positional dict, dict + keywords, two dicts, two dicts + keywords (incl. an empty dict, and a key occurring in two groups: the later group wins, as filters.update does) each a value / None / a NaN (the shared object or a fresh one) / '
-        'a list of values (incl. lists holding NaN objects, empty lists) / a compiled literal regex; or one callable from the named set (coalesce, is_none, '
+        'a list of values (incl. lists holding NaN objects, empty lists) / a compiled literal regex, also compiled with re.I or as ^literal with re.M (mixed-case and multi-line cells); or one callable from the named set (coalesce, is_none, '
         'identity, eq). Conditions matching nothing and everything are forced. For each case d.inc(c), d.exc(c), d.inc(c).inc(c), d.find_<col>(c), '
         'd.one_or_none(c) and d itself afterwards are compared inside Coq with the model (and the model with the filter spec); the oracle recomputes '
         'the selected rows with a plain python predicate written from the property text and checks inc/exc rows and order, columns kept, identity, '
@@ -24,7 +24,7 @@ EXPLANATION = ('theorems C06_* (coq/props/C06.v) hold for every rectangular tabl
                '(sequential masks / negated conjunction / rebuild through dict_concat / columns re-attached) equals filter / filter-negation on the records; '
                'partition, order, columns, identity, idempotence and find_ follow on the spec; the correspondence ties the concrete model to /repo')
 TRUSTED = ['modelled, not verified: coq/model/M_filter.v + M_table.v (tied by the correspondence only)',
-           'regexes restricted to literal patterns (re.escape): pattern.search = substring test',
+           'regexes restricted to literal patterns (re.escape): pattern.search = substring test; with re.I = substring test on ASCII-lowercased strings; "^" + literal with re.M = some line starts with it',
            'kwargs_support / callables restricted to the named set of M_table.rowfn']
 ASSUMPTIONS = ['cells are None, ints, half-integer floats, NaN objects, ASCII strings; +-inf cells and conditions are generated and modelled as the code does (pyg_base.is_nan counts inf as missing: inc(x=nan) also selects inf rows, inc(x=inf) NaN rows); the text does not decide the MEMBERSHIP of such rows, so the oracle claims for them only that inc/exc partition the rows in order and keep the columns',
                'a conjunction spelled across keyword filters and positional dicts is the flattened list kw ++ dict1 ++ dict2 (model: QFilters + dict_of); when one column gets two '
@@ -47,7 +47,7 @@ NAME_PAIRS = [('a', 'b'), ('id', 'name'), ('f', 'date'), ('_x', 'n1'), ('find_me
 def cond_coq(c):
     if 'v' in c: return '(CVal %s)' % cell_coq(c['v'])
     if 'l' in c: return '(CList %s)' % clist(cell_coq(x) for x in c['l'])
-    return '(CRegex %s)' % qs(c['re'])
+    return '(%s %s)' % ({'I': 'CRegexI', 'M': 'CRegexM'}.get(c.get('fl'), 'CRegex'), qs(c['re']))
 def query_coq(q):
     if 'none' in q: return 'QNone'
     if 'f' in q: return '(QFun %s)' % rowfn_coq(q['f'])
@@ -63,6 +63,8 @@ def impl_setup():
 def cond_py(c, conv):
     if 'v' in c: return conv(c['v'])
     if 'l' in c: return tuple(conv(x) for x in c['l']) if c.get('as') == 'tuple' else [conv(x) for x in c['l']]     # as_list(tuple) = list
+    if c.get('fl') == 'I': return re.compile(re.escape(c['re']), re.I)
+    if c.get('fl') == 'M': return re.compile('^' + re.escape(c['re']), re.M)
     return re.compile(re.escape(c['re']))
 
 def call_with(method, q, conv):
@@ -110,7 +112,10 @@ def sat_cond(c, v, conv):
         if nan_(x): return nan_(v)
         return v is x or v == x
     if 'l' in c: return any(v is x or v == x for x in (conv(y) for y in c['l']))
-    return isinstance(v, str) and c['re'] in v
+    if not isinstance(v, str): return False
+    if c.get('fl') == 'I': return c['re'].lower() in v.lower()                    # compiled with re.I: the flags belong to the condition
+    if c.get('fl') == 'M': return any(line.startswith(c['re']) for line in v.split('\n'))   # '^' + literal with re.M
+    return c['re'] in v
 
 def rows_of_snapshot(snap):
     ks = list(snap); n = len(snap[ks[0]]) if ks else 0
@@ -211,7 +216,8 @@ def impl(case):
 
 # ------------------------------------------------------------------ generation
 CELLS = [None, None, 0, 1, {'f': 2}, 2, {'f': 5}, {'nan': 0}, {'nan': 1}, {'s': 'a'}, {'s': 'ab'}, {'s': 'b'}, {'s': ''},
-         -1, {'f': -2}, {'f': 0}, 10 ** 12, {'s': 'a b'}, {'s': 'None'}, {'s': 'nan'}, {'s': '1'}, {'inf': 1}, {'inf': -1}]
+         -1, {'f': -2}, {'f': 0}, 10 ** 12, {'s': 'a b'}, {'s': 'None'}, {'s': 'nan'}, {'s': '1'}, {'inf': 1}, {'inf': -1},
+         {'s': 'Ab'}, {'s': 'AB'}, {'s': 'B'}, {'s': 'a\nb'}, {'s': 'x\nB'}, {'s': 'b\n'}]
 FRESH_NAN = {'nan': 9}
 
 def gen_table(rng):
@@ -230,7 +236,10 @@ def gen_cond(rng, pool, colvals):
         l = [rng.choice(src + [FRESH_NAN]) for _ in range(rng.choice([0, 1, 2, 2, 3]))]
         if rng.random() < 0.15: l = list({json.dumps(x): x for x in colvals}.values())      # match everything
         return {'l': l, 'as': 'tuple'} if rng.random() < 0.3 else {'l': l}
-    return {'re': rng.choice(['a', 'b', 'ab', '', 'ba', 'x'])}
+    q = rng.random()
+    if q < 0.35: return {'re': rng.choice(['a', 'B', 'AB', 'ab', 'Ab', 'bA', '']), 'fl': 'I'}
+    if q < 0.55: return {'re': rng.choice(['b', 'B', 'a', 'x', '']), 'fl': 'M'}
+    return {'re': rng.choice(['a', 'b', 'ab', '', 'ba', 'x', 'B'])}
 
 def gen_cases(rng, tier):
     cases = []
@@ -285,6 +294,17 @@ def gen_cases(rng, tier):
         g = rng.choice([None, None, [0, len(fs), None], [len(fs) - 1, 1, None]])
         q = {'filters': fs, 'form': 'kw'} if g is None else {'filters': fs, 'form': 'split', 'groups': g}
         cases.append({'kvs': kvs, 'q': q, 'fkey': rng.choice([ka, kb]), 'kind': 'inf'})
+    # patterns compiled WITH flags (re.I on mixed-case cells, '^..' with re.M on multi-line cells), alone and inside conjunctions / dict spellings
+    for _ in range(200 if tier == 'quick' else 3000):
+        n = rng.choice([1, 2, 3, 4, 5, 6]); ka, kb = rng.choice(NAME_PAIRS)
+        pool = rng.sample([{'s': 'Ab'}, {'s': 'AB'}, {'s': 'ab'}, {'s': 'b'}, {'s': 'B'}, {'s': 'a\nb'}, {'s': 'x\nB'}, {'s': 'b\nA'}, {'s': ''}, 1, None], rng.choice([2, 3, 4, 5]))
+        kvs = [[ka, {'L': [rng.choice(pool) for _ in range(n)]}], [kb, {'L': [rng.choice([0, 1]) for _ in range(n)]}]]
+        c1 = rng.choice([{'re': rng.choice(['ab', 'AB', 'aB', 'b', 'A', '']), 'fl': 'I'}, {'re': rng.choice(['b', 'B', 'A', 'x', '']), 'fl': 'M'}])
+        fs = [[ka, c1]] + ([[kb, {'v': rng.choice([0, 1])}]] if rng.random() < 0.4 else [])
+        if rng.random() < 0.3: fs.reverse()
+        g = rng.choice([None, None, [0, len(fs), None], [len(fs) - 1, 1, None], [0, len(fs) - 1, 1]])
+        q = {'filters': fs, 'form': 'kw'} if g is None else {'filters': fs, 'form': 'split', 'groups': g}
+        cases.append({'kvs': kvs, 'q': q, 'fkey': rng.choice([ka, kb]), 'kind': 'reflags'})
     big = []
     for _ in range(10 if tier == 'quick' else 200):
         n = rng.randrange(101, 201); ka, kb = rng.choice(NAME_PAIRS)
